@@ -6,8 +6,8 @@ from props import hc_common as H
 from gen_hc import Sim, Net, pick_cfg, random_traffic, pick_len
 
 PROP = "C13"
-LAKE_TARGETS = ["Uflow.Props.C13", "Uflow.Props.C13Bound", "uflow_driver"]
-PROPS_FILES = ["C13", "C13Bound"]
+LAKE_TARGETS = ["Uflow.Props.C13", "Uflow.Props.C13Bound", "Uflow.Props.C13Ep", "uflow_driver"]
+PROPS_FILES = ["C13", "C13Bound", "C13Ep"]
 TRUSTED_BASE = [
     "Lean 4.33 kernel; axioms per theorem under coverage.axioms",
     "tools/extract_consts.py",
@@ -250,6 +250,26 @@ def streams(rng, tier, ctx, with_ep=True):
             sim.meta = {"dt": dt, "flooder": flooder}
             cid = "e%d" % i
             ecases.append((cid, sim.ops)); emeta[cid] = sim
+        # known finding F23 (theorem C13_ep_client_hsack_witness): an Active client answers every SYN-ACK carrying its nonce with a
+        # 9-byte handshake ACK that does not go through the half connection's credit: a replayed SYN-ACK, 200 copies in one step
+        from checkflow import SplitMix
+        it.op("=== kfF23")
+        sim = E.EpSim(SplitMix(23), inter=it)
+        scfg = dict(E.DEFAULT_EP); ccfg = dict(E.DEFAULT_EP, send=1472)
+        sim.srv(8, 8, 1, scfg)
+        nets = {"c2s": E.Net(), "s2c": E.Net()}
+        sim.cli(0, ccfg, nets)
+        sim.run(6, 5_000_000, nets)
+        sa = [d["idx"] for d in sim.log.get((0, "s2c"), []) if d["kind"] == "synack"]
+        if sa:
+            sim.tick += 1; sim.set_time(sim.time + 5_000_000)
+            for _ in range(200):
+                sim.op("fwd s2c 0 %d" % sa[0])
+            sim.cstep(0, nets); sim.sstep(nets)
+        sim.run(5, 5_000_000, nets)
+        sim.ceiling = {"c2s": min(ccfg["send"], scfg["recv"]), "s2c": min(scfg["send"], ccfg["recv"])}
+        sim.meta = {"dt": 5_000_000, "flooder": "-"}
+        ecases.append(("kfF23", sim.ops)); emeta["kfF23"] = sim
     finally:
         it.close()
     out.append({"name": "negotiated_ceiling", "mode": "ep", "cases": ecases, "meta": emeta, "case_timeout": 120})
@@ -311,14 +331,24 @@ def ep_oracle(stream, cid, ops, outs):
             rtts["c2s" if w[0] == "cget" else "s2c"].append((t, 0.0 if v == "-" else bits_to_float(v)))
     for dr in ("c2s", "s2c"):
         fs = [d for d in log.get((0, dr), []) if d.get("kind") in ("D", "A", "S")]
-        if len(fs) < 2:
-            continue
-        w = interval_check(dr, fs, None, sim.ceiling[dr], rtts=sorted(rtts[dr]))
+        w = interval_check(dr, fs, None, sim.ceiling[dr], rtts=sorted(rtts[dr])) if len(fs) >= 2 else None
+        who = "client" if dr == "c2s" else "server"
         if w:
-            who = "client" if dr == "c2s" else "server"
             fails.append({"oracle": "rate_ceiling", "detail": "%s (negotiated ceiling min(own max_send_rate, peer max_receive_rate) = %d B/s, step %s ns): %d bytes in (%.6f s, %.6f s] > bound %.1f" %
                           (who, sim.ceiling[dr], sim.meta["dt"], w[3], w[1] / 1e9, w[2] / 1e9, w[4]),
                           "signature": {"oracle": "rate_ceiling", "cause": "negotiated", "side": who}})
+        elif dr == "c2s":
+            # everything the client transmits for the connection once it is established, handshake ACKs included
+            tcon = next((t for (t, tag, _) in cev.get(0, []) if tag == "C"), None)
+            if tcon is not None:
+                fs2 = fs + [d for d in log.get((0, dr), []) if d.get("kind") == "hsack" and d["time"] > tcon]
+                fs2.append({"time": tcon, "len": 0})        # the instant the connection was established opens the first interval
+                fs2.sort(key=lambda d: d["time"])
+                w2 = interval_check(dr, fs2, None, sim.ceiling[dr], rtts=sorted(rtts[dr])) if len(fs2) > len(fs) + 1 else None
+                if w2:
+                    fails.append({"oracle": "rate_ceiling", "detail": "client (ceiling %d B/s): %d bytes in (%.6f s, %.6f s] > bound %.1f once the handshake ACKs it sends while active (%d of them, 9 bytes each, answers to SYN-ACKs carrying its nonce) are counted" %
+                                  (sim.ceiling[dr], w2[3], w2[1] / 1e9, w2[2] / 1e9, w2[4], len(fs2) - len(fs) - 1),
+                                  "signature": {"oracle": "rate_ceiling", "cause": "handshake_acks_unmetered", "side": "client"}})
     return fails
 
 def oracle(stream, cid, ops, outs):
